@@ -309,7 +309,8 @@ def selu_forward(a:np.ndarray, alpha:float, scale:float) -> np.ndarray:
     return scale * (np.maximum(0, a) + np.minimum(0, alpha * (np.exp(a) - 1)))
 
 def selu_backward(grad:np.ndarray, a:np.ndarray, alpha:float, scale:float) -> np.ndarray:
-    return scale * grad *((a > 0) +  alpha * np.exp(a) * (a <= 0))
+    # exp only of the non-positive part: exp(a) overflows for large a and inf * 0 is nan
+    return scale * grad *((a > 0) +  alpha * np.exp(np.minimum(a, 0)) * (a <= 0))
 
 
 def tanh_forward(a:np.ndarray) -> np.ndarray:
